@@ -44,6 +44,7 @@ type c19FixCase struct {
 	KPath string            `json:"kpath"`
 	Files map[string]string `json:"files"`
 	Init  string            `json:"init"`
+	Vars  bool              `json:"vars,omitempty"` // run `edit fix --vars`
 }
 
 func (c *c19FixCase) as17() *c17Case {
@@ -78,6 +79,22 @@ func c19GenFixCase(g *Rng) *c19FixCase {
 	if g.Chance(60) && len(k.CommonLabels) == 0 {
 		k.CommonLabels = c17GenSmap(g, 1, 3)
 	}
+	if g.Chance(35) {
+		// `edit fix --vars`: the resource files of these cases are not YAML, so the conversion finds no
+		// target; what is compared is the bookkeeping of the kustomization file (vars removed, replacements
+		// REPLACED, bases folded into resources) and its layout
+		c.Vars = true
+		if g.Chance(75) {
+			k.Vars = []types.Var{{Name: "V", ObjRef: types.Target{APIVersion: "v1", Name: "cm", Gvk: resid.Gvk{Kind: "ConfigMap"}}}}
+			if g.Chance(40) {
+				k.Vars = append(k.Vars, types.Var{Name: "W", ObjRef: types.Target{APIVersion: "apps/v1", Name: "web", Gvk: resid.Gvk{Kind: "Deployment"}},
+					FieldRef: types.FieldSelector{FieldPath: "spec.replicas"}})
+			}
+		}
+		if g.Chance(40) {
+			k.Replacements = []types.ReplacementField{{Path: "repl.yaml"}}
+		}
+	}
 	c.Init = c17Layout(g, k, "A")
 	return c
 }
@@ -90,7 +107,11 @@ type c19FixObs struct {
 func c19RunFix(c *c19FixCase, init []byte) c19FixObs {
 	fs := c17MakeFs(c.as17(), init)
 	defer fs.close()
-	cls, msg := c17Exec(fs, []string{"fix"})
+	args := []string{"fix"}
+	if c.Vars {
+		args = append(args, "--vars")
+	}
+	cls, msg := c17Exec(fs, args)
 	return c19FixObs{cls, msg, fs.read(c.KPath)}
 }
 
@@ -107,8 +128,15 @@ func c19FixTerm(c *c19FixCase, o c19FixObs) (string, bool) {
 	if k, err := c17Unmarshal(o.after); err == nil {
 		tbl = c17RenderTable(k)
 	}
-	return c17PoolStrings(fmt.Sprintf("(mkCase19 %s %s %s %s %s %s %s)", c17EnvTerm(c.as17()), c17FileTerm([]byte(c.Init)), k0,
-		o.cls, c17FileTerm(o.after), k1, tbl)), true
+	vo := "None"
+	if c.Vars {
+		vo = "(Some VFail)"
+		if k, err := c17Unmarshal(o.after); err == nil && o.cls == ClsOk {
+			vo = "(Some (VOk " + coqOpt(len(k.Replacements) > 0, coqStr(c17JsonTok(k.Replacements))) + "))"
+		}
+	}
+	return c17PoolStrings(fmt.Sprintf("(mkCase19 %s %s %s %s %s %s %s %s)", c17EnvTerm(c.as17()), c17FileTerm([]byte(c.Init)), k0,
+		o.cls, c17FileTerm(o.after), k1, tbl, vo)), true
 }
 
 var c19FixAddressed = map[string]bool{"Patches": true, "PatchesJson6902": true, "PatchesStrategicMerge": true, "Labels": true, "CommonLabels": true}
@@ -222,13 +250,35 @@ func c19FixLaws(r *Run, c *c19FixCase, o c19FixObs) {
 	if len(kNew.PatchesJson6902) > 0 || len(kNew.PatchesStrategicMerge) > 0 || len(kNew.CommonLabels) > 0 {
 		viol("fix_removes_deprecated", "fix-leaves-deprecated-field", string(o.after))
 	}
+	converting := c.Vars && len(kPrev.Vars) > 0
 	for _, f := range c17Fields {
 		if c19FixAddressed[f.goName] {
 			continue
 		}
-		if jo, jn := c17FieldJSON(kPrev, f), c17FieldJSON(kNew, f); jo != jn {
-			viol("fix_frame", "fix-frame:"+f.goName, fmt.Sprintf("%s -> %s", jo, jn))
+		if converting && (f.goName == "Vars" || f.goName == "Resources" || f.goName == "Bases") {
+			continue // --vars: vars are converted, bases folded into resources
 		}
+		if jo, jn := c17FieldJSON(kPrev, f), c17FieldJSON(kNew, f); jo != jn {
+			class := "fix-frame:" + f.goName
+			if converting && f.goName == "Replacements" {
+				if len(kPrev.Replacements) == 0 {
+					continue // the replacements the conversion produced
+				}
+				// the file already had replacements: they must still be there, in front of the new ones
+				keep := len(kNew.Replacements) >= len(kPrev.Replacements)
+				for j := 0; keep && j < len(kPrev.Replacements); j++ {
+					keep = c17JsonTok(kPrev.Replacements[j]) == c17JsonTok(kNew.Replacements[j])
+				}
+				if keep {
+					continue
+				}
+				class = "fix-vars-drops-existing-replacements"
+			}
+			viol("fix_frame", class, fmt.Sprintf("%s -> %s", jo, jn))
+		}
+	}
+	if converting && len(kNew.Vars) > 0 {
+		viol("fix_removes_deprecated", "fix-vars-leaves-vars", string(o.after))
 	}
 	if len(kNew.Patches) != len(kPrev.Patches)+len(kPrev.PatchesJson6902)+len(kPrev.PatchesStrategicMerge) {
 		viol("fix_patches", "fix-patch-count", fmt.Sprintf("%d patches from %d+%d+%d", len(kNew.Patches), len(kPrev.Patches), len(kPrev.PatchesJson6902), len(kPrev.PatchesStrategicMerge)))
@@ -744,6 +794,153 @@ func c19FixBuildLaw(r *Run, t *c19Tree) {
 	}
 }
 
+// ---------------------------------------------------------------- (d) edit fix --vars
+
+// c19VarsTree: one layer with a Deployment whose container command / env values mention vars, the
+// Service / ConfigMap the vars point to, and `vars:` entries. Occurrences are whole values, prefixes,
+// suffixes, or delimited middles; `bad` adds an occurrence that is not delimited (the command must refuse).
+type c19VarsTree struct {
+	Files map[string]string `json:"files"` // relative to the layer directory, kustomization.yaml included
+	Bad   bool              `json:"bad"`
+	NVars int               `json:"nvars"`
+	Repl  bool              `json:"repl"` // the kustomization already has a `replacements:` entry
+}
+
+func c19GenVarsTree(g *Rng) *c19VarsTree {
+	t := &c19VarsTree{Files: map[string]string{}}
+	t.NVars = 1 + g.Intn(2)
+	t.Bad = g.Chance(25)
+	t.Repl = g.Chance(25)
+	occ := func(v string) string {
+		switch g.Intn(5) {
+		case 0:
+			return "$(" + v + ")"
+		case 1:
+			return "$(" + v + "):80"
+		case 2:
+			return "--svc=$(" + v + ")"
+		case 3:
+			return "a.$(" + v + ").b"
+		default:
+			return "x/$(" + v + ")/y"
+		}
+	}
+	names := []string{"SVC_NAME", "CM_NAME"}[:t.NVars]
+	var env strings.Builder
+	for i, v := range names {
+		fmt.Fprintf(&env, "        - name: E%d\n          value: %s\n", i, occ(v))
+		if g.Chance(50) {
+			fmt.Fprintf(&env, "        - name: F%d\n          value: %s\n", i, occ(v))
+		}
+	}
+	if t.Bad {
+		// not delimited: different characters before and after
+		fmt.Fprintf(&env, "        - name: BAD\n          value: x/$(%s):y\n", names[len(names)-1])
+	}
+	t.Files["deployment.yaml"] = "apiVersion: apps/v1\nkind: Deployment\nmetadata:\n  name: web\nspec:\n  selector:\n    matchLabels:\n      app: web\n  template:\n    metadata:\n      labels:\n        app: web\n    spec:\n      containers:\n      - name: main\n        image: nginx:1.0\n        env:\n" + env.String()
+	t.Files["service.yaml"] = "apiVersion: v1\nkind: Service\nmetadata:\n  name: web-svc\nspec:\n  ports:\n  - port: 80\n"
+	t.Files["cm.yaml"] = "apiVersion: v1\nkind: ConfigMap\nmetadata:\n  name: settings\ndata:\n  k: v\n"
+	k := "resources:\n- deployment.yaml\n- service.yaml\n- cm.yaml\n"
+	if g.Chance(50) {
+		k += "namePrefix: p-\n"
+	}
+	k += "vars:\n- name: SVC_NAME\n  objref:\n    apiVersion: v1\n    kind: Service\n    name: web-svc\n"
+	if t.NVars > 1 {
+		k += "- name: CM_NAME\n  objref:\n    apiVersion: v1\n    kind: ConfigMap\n    name: settings\n"
+		if g.Chance(40) {
+			k += "  fieldref:\n    fieldPath: metadata.name\n"
+		}
+	}
+	if t.Repl {
+		k += "replacements:\n- source:\n    kind: Service\n    name: web-svc\n    fieldPath: spec.ports.0.port\n  targets:\n  - select:\n      kind: Deployment\n      name: web\n    fieldPaths:\n    - spec.template.spec.containers.0.image\n    options:\n      delimiter: \":\"\n      index: 1\n"
+	}
+	t.Files["kustomization.yaml"] = k
+	return t
+}
+
+// fixVarsLaw: `edit fix --vars` either converts every var and leaves the build unchanged, or fails and
+// changes NO file of the tree.
+func c19FixVarsLaw(r *Run, t *c19VarsTree) {
+	base, err := os.MkdirTemp("", "verif-c19v-")
+	if err != nil {
+		panic(err)
+	}
+	if p, err := filepath.EvalSymlinks(base); err == nil {
+		base = p
+	}
+	defer os.RemoveAll(base)
+	for n, c := range t.Files {
+		_ = os.WriteFile(filepath.Join(base, n), []byte(c), 0o644)
+	}
+	disk := filesys.MakeFsOnDisk()
+	before, err := c19Build(disk, base)
+	rp := map[string]interface{}{"vars": t}
+	if err != nil {
+		r.Violation(OracleViolation{Law: "tree_builds", Class: "c19-generated-tree-does-not-build", Detail: err.Error(), Replay: rp})
+		return
+	}
+	cls, msg := c17Exec(&c17Fs{disk, base}, []string{"fix", "--vars"})
+	r.Count("fix_vars", fmt.Sprintf("%s bad=%v repl=%v", cls, t.Bad, t.Repl))
+	r.AddEval("fixvars:"+t.Files["deployment.yaml"]+t.Files["kustomization.yaml"], true)
+	var changed []string
+	for n, c := range t.Files {
+		b, _ := os.ReadFile(filepath.Join(base, n))
+		if string(b) != c {
+			changed = append(changed, n)
+		}
+	}
+	sort.Strings(changed)
+	if cls == ClsPanic {
+		r.Violation(OracleViolation{Law: "no_panic", Class: "panic:edit fix --vars", Detail: msg, Replay: rp})
+		return
+	}
+	if cls != ClsOk {
+		if len(changed) > 0 {
+			class := "fix-vars-writes-on-failure"
+			// the shape of the known defect: an earlier var has already been replaced by its placeholder in the
+			// resource files when a later occurrence turns out not to be convertible; the kustomization keeps `vars:`
+			onlyRes := true
+			for _, n := range changed {
+				if n == "kustomization.yaml" {
+					onlyRes = false
+				}
+			}
+			if onlyRes {
+				after, _ := os.ReadFile(filepath.Join(base, changed[0]))
+				if strings.Contains(string(after), "_PLACEHOLDER") {
+					class = "fix-vars-partial-rewrite-on-failure"
+				}
+			}
+			r.Violation(OracleViolation{Law: "failed_fix_writes_nothing", Class: class,
+				Detail: fmt.Sprintf("`edit fix --vars` failed (%s) but changed %v", msg, changed), Replay: rp})
+		}
+		return
+	}
+	kb, _ := os.ReadFile(filepath.Join(base, "kustomization.yaml"))
+	k, err := c17Unmarshal(kb)
+	if err != nil {
+		r.Violation(OracleViolation{Law: "still_parses", Class: "fix-unparsable-after", Detail: err.Error() + "\n" + string(kb), Replay: rp})
+		return
+	}
+	if len(k.Vars) > 0 {
+		r.Violation(OracleViolation{Law: "fix_removes_deprecated", Class: "fix-vars-leaves-vars", Detail: string(kb), Replay: rp})
+	}
+	after, err := c19Build(disk, base)
+	if err != nil {
+		r.Violation(OracleViolation{Law: "fix_preserves_build", Class: "fix-vars-tree-does-not-build", Detail: err.Error() + "\n" + string(kb), Replay: rp})
+		return
+	}
+	if after != before {
+		class := "fix-vars-changes-build"
+		if t.Repl && len(k.Replacements) == t.NVars {
+			// the known defect: k.Replacements is overwritten, the replacements the file already had are gone
+			class = "fix-vars-drops-existing-replacements"
+		}
+		r.Violation(OracleViolation{Law: "fix_preserves_build", Class: class,
+			Detail: fmt.Sprintf("fixed file:\n%s\nbefore:\n%s\nafter:\n%s", kb, before, after), Replay: rp})
+	}
+}
+
 // ---------------------------------------------------------------- run / replay
 
 func c19RunFixCase(r *Run, c *c19FixCase, toModel bool) {
@@ -799,7 +996,7 @@ func runC19(r *Run, rng *Rng, tier string) error {
 	nFix, nTree, nFixTree := 150, 40, 25
 	exhaustiveEvery := 20
 	if tier == "thorough" {
-		nFix, nTree, nFixTree = 1500, 400, 250
+		nFix, nTree, nFixTree = 1000, 400, 200
 		exhaustiveEvery = 5
 	}
 	r.shard = 25
@@ -819,6 +1016,17 @@ func runC19(r *Run, rng *Rng, tier string) error {
 	}
 	for i := 0; i < nFixTree; i++ {
 		c19FixBuildLaw(r, c19GenTree(rng.Fork(), false))
+	}
+	if data, err := os.ReadFile(verifRoot() + "/corpus/C19/vars.json"); err == nil {
+		var vt []*c19VarsTree
+		if json.Unmarshal(data, &vt) == nil {
+			for _, t := range vt {
+				c19FixVarsLaw(r, t)
+			}
+		}
+	}
+	for i := 0; i < nFixTree; i++ {
+		c19FixVarsLaw(r, c19GenVarsTree(rng.Fork()))
 	}
 	return nil
 }
@@ -847,6 +1055,7 @@ func replayC19(p string) (bool, string, error) {
 			Tree    *c19Tree    `json:"tree"`
 			Subset  string      `json:"subset"`
 			EditFix bool        `json:"editfix"`
+			Vars    *c19VarsTree `json:"vars"`
 		} `json:"case"`
 	}
 	if err := json.Unmarshal(data, &rp); err != nil {
@@ -860,6 +1069,8 @@ func replayC19(p string) (bool, string, error) {
 		o := c19RunFix(c, []byte(c.Init))
 		fmt.Fprintf(&b, "initial:\n%s\n--- kustomize edit fix -> %s %s\n%s\n", c.Init, o.cls, o.msg, o.after)
 		c19FixLaws(r, c, o)
+	case rp.Case.Vars != nil:
+		c19FixVarsLaw(r, rp.Case.Vars)
 	case rp.Case.Tree != nil && rp.Case.EditFix:
 		c19FixBuildLaw(r, rp.Case.Tree)
 	case rp.Case.Tree != nil:
